@@ -89,7 +89,7 @@ _p('C03', ['r_table'],
    "wasm-encoder's own reencode table prescribes (same opcode, every immediate fed by the same-named field, every "
    'index through the index space the oracle names, no narrowing cast on the way).',
    not_decided='that wasm-encoder serialises an Instruction value correctly (trusted)')
-PROPERTIES['C03']['rules'] = ['r_table', 'r_control']
+PROPERTIES['C03']['rules'] = ['r_table', 'r_control', 'r_validate']
 
 _p('C06', ['r_edges', 'r_segments'],
    'The links the closure walks exist: every active element / data segment is registered on the table / memory it '
@@ -180,7 +180,7 @@ _p('C08', ['r_nondet', 'r_restore', 'r_emitorder', 'r_cache', 'r_gates', 'r_cust
                'parser; not claimed); determinism of wasm-encoder itself')
 PROPERTIES['C04']['rules'] = ['r_flow', 'r_segments']
 
-_p('C01', ['r_table', 'r_control', 'r_flow', 'r_segments', 'r_emitorder'],
+_p('C01', ['r_table', 'r_control', 'r_flow', 'r_segments', 'r_emitorder', 'r_validate'],
    'The four mechanisms the property names are decided structurally: (1) every cross reference is an arena id that is turned '
    'back into an index of the same index space (R-TABLE for operands, R-FLOW/R-FLOW-SEG for module-level records, segments, '
    'initialisers, start), with index spaces assigned before use in one fixed section order (R-EMITORDER); (2) branch labels '
@@ -197,7 +197,7 @@ _p('C19', ['r_pushpair', 'r_emitorder', 'r_flow', 'r_segments'],
    'emit-time map is handed to custom sections only after every standard section assigned its indices (R-EMITORDER); '
    'R-FLOW/R-FLOW-SEG show that lookups go through the space of the referenced kind.',
    not_decided='the numeric value of indices for a concrete module (follows from the pairing; not executed)')
-_p('C20', ['r_encform', 'r_control', 'r_table', 'r_segments'],
+_p('C20', ['r_encform', 'r_control', 'r_table', 'r_segments', 'r_validate'],
    'No feature escalation: the DataCount section is emitted only for passive segments or memory.init/data.drop users '
    '(the accumulated flag must be is_passive() only); active element segments for table 0 use the MVP encoding; block types '
    'written in the compact form stay compact (R-CONTROL form obligations) and every operator is re-emitted as itself with its '
@@ -212,7 +212,7 @@ _p('C12', ['r_customs', 'r_restore'],
    'second emit sees them; nothing reachable from gc::run mutates ModuleCustomSections.',
    not_decided='byte identity as written by wasm-encoder (trusted); custom sections implemented by users')
 
-_p('C13', ['r_names', 'r_pushpair'],
+_p('C13', ['r_names', 'r_pushpair', 'r_effects'],
    'Name section: per wasmparser::Name subsection the index is resolved through the parse-time space of that kind and stored on '
    'the item of that collection (locals through get_local of the entry\'s function); per wasm-encoder subsection the entries '
    'are (get_<kind>_index(item.id), item.name) over the collection of that kind, sorted by index, subsections in '
